@@ -608,7 +608,7 @@ def gen_c08(rng, sid0, thorough=False):
                 sid += 1
     # the same request repeated: to the same unit, to other units, after other requests -- the decision is
     # taken per request with the unit id of that request, an earlier allow never carries over
-    for k in range(40 if thorough else 12):
+    for k in range(400 if thorough else 12):
         framing = rng.choice(["tcp", "rtu"])
         units = [1, 2, 3]
         steps = []
@@ -628,7 +628,7 @@ def gen_c08(rng, sid0, thorough=False):
     # random per-request policies: the decision varies with kind, unit, range -> an earlier allow
     # must not carry over; invalid requests in between are never shown to the handler
     lat = full_lattice(rng)
-    for k in range(300 if thorough else 50):
+    for k in range(3000 if thorough else 50):
         framing = rng.choice(["tcp", "rtu"])
         units = rng.choice([[1], [1, 2], [3, 17, 200]])
         steps = []
